@@ -353,6 +353,15 @@ func genCaseFiles(g *GenCase, dir string) map[string]string {
 		fmt.Fprintf(&cb, "func id(x %s) %s { return x }\n\nfunc use(%s) %s {\n\treturn id(%s)\n}\n", result, result, params, result, expr)
 	case "composite":
 		fmt.Fprintf(&cb, "type holder struct {\n\tV %s\n}\n\nfunc use(%s) []holder {\n\treturn []holder{{V: %s}}\n}\n", result, params, expr)
+	case "convarg":
+		fmt.Fprintf(&cb, "func use(%s) %s {\n\treturn %s(%s)\n}\n", params, result, result, expr)
+	case "namedconv":
+		fmt.Fprintf(&cb, "type resT %s\n\nfunc use(%s) resT {\n\treturn resT(%s)\n}\n", result, params, expr)
+	case "selectorarg":
+		r.imports["fmt"] = "fmt"
+		fmt.Fprintf(&cb, "func use(%s) string {\n\treturn fmt.Sprint(%s)\n}\n", params, expr)
+	case "litcall":
+		fmt.Fprintf(&cb, "func use(%s) %s {\n\treturn func(x %s) %s { return x }(%s)\n}\n", params, result, result, result, expr)
 	case "method":
 		fmt.Fprintf(&cb, "type recv struct{}\n\nfunc (r *recv) use(%s) %s {\n\t%s%s\n}\n", params, result, ret, expr)
 	case "goroutine":
